@@ -44,7 +44,7 @@ def _case(draw, tier):
         [None, NS, "c"], [None, "bc", FORMATS[4]], [NS, FORMATS[4], FORMATS[5]]]))
     ppool = draw(st.sampled_from([PIDS, PIDS[:2], ["ab", "a", "abc"]]))
     op = ops.weighted(
-        (9, ops.smeta_op(ppool, fpool, 4, kinds=("str", "path", "file", "bytesio", "relpath", "shortreads"))),
+        (9, ops.smeta_op(ppool, fpool, 4, kinds=("str", "path", "file", "bytesio", "relpath", "shortreads", "gzip", "rwfile"))),
         (5, ops.rmeta_op(ppool, fpool + [None])),
         (4, ops.dmeta_op(ppool, [f for f in fpool if f is not None])),
         (2, ops.store_op(ppool, 2, allow_none=False, validation=False)),
